@@ -761,7 +761,7 @@ func (c *Ctx) declOf(p *packages.Package, fn *types.Func) *ast.FuncDecl {
 
 type stageLoop struct {
 	fi       *FuncInfo
-	rng      ast.Stmt // the range statement, or the index loop `for i := …; i < len(pipeline); i++`
+	rng      ast.Stmt        // the range statement, or the index loop `for i := …; i < len(pipeline); i++`
 	handled  map[string]bool // nil-test branch builds a stage
 	rejected map[string]bool // nil-test (possibly conjoined) guards `return false`
 	breakAt  map[string]bool // exact nil-test guards a return of the loop index
